@@ -10,6 +10,9 @@
     c06.alias <func> <0|1 mixed units> slot=objno …  → what `Np.runGuarded` does with the handler's regenerated
                                                exits on a call whose slots hold the given objects
     c06.exits <func>                         → the regenerated exit list (kind:raises:src;…)
+    c06.method <ndarray.m>                   → per regenerated override row: variant|receiver|kernel call `Np.run`
+                                               makes on symbolic arguments|defects (after the equivalence list)
+    c06.method.names                         → the regenerated override universe
 -/
 import UnytModel.DriverBase
 import UnytModel.NpHandlers
@@ -17,6 +20,9 @@ import UnytModel.Generated.Handlers
 import UnytModel.Ref.C06Exclusions
 import UnytModel.NpAlias
 import UnytModel.Generated.C06Alias
+import UnytModel.NpMethods
+import UnytModel.Generated.C06Methods
+import UnytModel.Ref.C06MethodExclusions
 
 namespace Unyt
 open Unyt.Np
@@ -71,6 +77,20 @@ def opsC06 : Handler := fun st fields =>
       | .noKernel => some (st, "ok\tnokernel")
       | .value _ r => some (st, s!"ok\tcall\t{r}")
     | none => some (st, "bad-args")
+  | ["c06.method.exclusions"] =>
+    some (st, "ok\t" ++ ";".intercalate (Ref.exclC06Methods.map fun (f, d) => f ++ "|" ++ d)
+      ++ "\t" ++ ";".intercalate (Ref.methodEquivC06.map fun (f, d) => f ++ "|" ++ d))
+  | ["c06.method.names"] => some (st, "ok\t" ++ ";".intercalate Generated.methodOverrides)
+  | ["c06.method", m] =>
+    let rows := Generated.methodRows.filter (·.func == m)
+    let show1 (r : Row) : String :=
+      let args : Args String := r.params.filterMap fun (p, f) => if f == Fwd.injected then none else some (p, PyVal.qty p "u")
+      let call := match run c06Kernel (fun p => PyVal.qty ("?" ++ p) "u") (fun x => x) (fun _ => "u") r args with
+        | .value _ x => x
+        | .noKernel => "nokernel"
+        | .raised e => "raised:" ++ e
+      s!"{r.variant}|{r.sig}|{call}|{",".intercalate (methodDefects Ref.methodEquivC06 r)}"
+    some (st, "ok\t" ++ ";".intercalate (rows.map show1))
   | ["c06.exits", f] =>
     some (st, "ok\t" ++ ";".intercalate ((exitsOf Generated.handlerExits f).map fun e => s!"{e.kind.str}:{e.raises}:{e.src}"))
   | ["c06.route", f] => some (st, s!"ok\t{c06RouteStr f}")
